@@ -215,6 +215,10 @@ def _check(case, fails, stats):
                 laws = rel.split(":", 1)[1].split("+")
                 tagged = [x for x in laws if "~" in x]
                 name = tagged[0] if tagged else laws[0] if len(laws) == 1 else "composed"
+                if any(n["k"] == "and" and not P.types_of(n) for a in (p, q) for n in P.walk(a)):
+                    # a comparison AND over disjoint object types got past the constructor's check (only the first two operands of a
+                    # chain are checked) and is kept by the normaliser, while the same AND produced by its own DNF step is dropped
+                    name = "impossible-AND-across-types-kept"
                 fails.append(("rewrite-not-recognised:%s" % name, "%s: %s | %s" % (rel, core.short(tp, 300), core.short(tq, 300))))
             # the law must hold in my evaluator whatever the library says
             try:
@@ -363,9 +367,9 @@ def run(ctx):
         ctx.note(case, nontrivial(case), classes_of(case, stats))
         ctx.handle(case, fails)
 
-    core.run_given(ctx, G.pair_case(), body, ctx.n(2200, 16000), label="c09-pairs")
-    core.run_given(ctx, G.triple_case(), body, ctx.n(350, 2500), label="c09-triples")
-    core.run_given(ctx, G.search_case(), body, ctx.n(200, 1200), label="c09-search")
+    core.run_given(ctx, G.pair_case(), body, ctx.n(2200, 10000), label="c09-pairs")
+    core.run_given(ctx, G.triple_case(), body, ctx.n(350, 1600), label="c09-triples")
+    core.run_given(ctx, G.search_case(), body, ctx.n(200, 800), label="c09-search")
     ctx.notes["generator_rejected_by_validator"] = seen["rejected"]
     if seen["rejected"] > 0.01 * max(seen["n"], 1):
         raise core.HarnessError("pattern generator unhealthy: %d of %d cases rejected by the third-party validator" % (seen["rejected"], seen["n"]))
